@@ -957,6 +957,9 @@ def load_supp():
     from supp.linter import lint
     from supp.assistant import assist, location
     tmp = tempfile.mkdtemp(prefix='den-proj-')
+    import atexit
+    import shutil
+    atexit.register(shutil.rmtree, tmp, True)      # scratch project root: nothing of it is needed after the run
     _supp.update(dict(Project=Project, Source=Source, get_name_usages=get_name_usages, np=np, extract_scope=extract_scope,
                       MultiName=MultiName, UndefinedName=UndefinedName, lint=lint, assist=assist, location=location,
                       tmp=tmp, project=Project([tmp])))
